@@ -22,7 +22,7 @@ MIN_COUNTERS = {"programs": 200, "float_vs_exact": 100, "exact_type_scans": 200,
 ASSUMPTIONS = ["int knots go through Python's true division inside the library and are judged like floats (1e-9)",
                "float verdicts only on the well-conditioned class"]
 
-PROGRAMS = ["eval", "basis", "insert", "remove", "elevate", "reduce", "split", "join", "add", "sub", "mul", "div", "fit_curve", "fit_points", "integrate"]
+PROGRAMS = ["eval", "basis", "insert", "remove", "elevate", "reduce", "split", "join", "add", "sub", "mul", "div", "fit_curve", "fit_points", "fit_interp", "integrate"]
 
 
 def gen_case(rng, idx, tier):
@@ -37,8 +37,8 @@ def gen_case(rng, idx, tier):
         p, n = ref.wellformed(U)
         A = {"U": U, "P": [F(rng.randint(-9, 9)) for _ in range(n)] if rng.random() < 0.5 else gen.points(rng, n, 0), "W": None}
     else:
-        A = gen.curve(rng, pmax=pmax, nintmax=1 if big else 2, dim=0 if prog in ("div", "fit_points", "integrate") or big else rng.choice([0, 0, 2]),
-                      rational=(rng.random() < 0.3 and prog not in ("fit_curve", "fit_points", "integrate", "basis")), big=big, wratio=9)
+        A = gen.curve(rng, pmax=pmax, nintmax=1 if big else 2, dim=0 if prog in ("div", "fit_points", "fit_interp", "integrate") or big else rng.choice([0, 0, 2]),
+                      rational=(rng.random() < 0.3 and prog not in ("fit_curve", "fit_points", "fit_interp", "integrate", "basis")), big=big, wratio=9)
     if cls == "minimal":
         A["W"] = None
         if not isinstance(A["P"][0], list):
@@ -173,6 +173,19 @@ def run_program(prog, case, nt, minimal=False):
         if prog == "fit_points":
             zs = [lib.num(x, knt) for x in lib.dec(case["fitnodes"])]
             pts = [lib.num(F(i * i - 3, 2), nt) for i in range(len(zs))]
+            S = Curve(lib.nums(U, knt))
+            S.fit_points(pts, zs)
+            return S
+        if prog == "fit_interp":
+            # as many points as control points (square system): Greville-like nodes, one per control point
+            n = A.npts
+            Uq = lib.dec(case["A"]["U"])
+            p_ = A.degree
+            zq = [sum(Uq[i + 1:i + p_ + 1], F(0)) / p_ if p_ else (Uq[i] + Uq[i + 1]) / 2 for i in range(n)]
+            if len(set(zq)) < n:
+                return None
+            zs = [lib.num(x, knt) for x in zq]
+            pts = [lib.num(F(i * i - 3, 2), nt) for i in range(n)]
             S = Curve(lib.nums(U, knt))
             S.fit_points(pts, zs)
             return S
